@@ -69,15 +69,23 @@ func snippetForBlock(blockType string, block *schema.BlockSchema, prefillRequire
 		labels := ""
 
 		depKey := false
+		depKeysLeft := 0
 		for _, l := range block.Labels {
 			if l.IsDepKey {
 				depKey = true
+				depKeysLeft++
 			}
 		}
 
 		if depKey {
+			placeholder := 1
 			for _, l := range block.Labels {
-				if l.IsDepKey {
+				if l.IsDepKey && depKeysLeft > 1 {
+					// only the last dependency key label holds the final tab stop
+					labels += fmt.Sprintf(` "${%d}"`, placeholder)
+					placeholder++
+					depKeysLeft--
+				} else if l.IsDepKey {
 					labels += ` "${0}"`
 				} else {
 					labels += fmt.Sprintf(` "%s"`, l.Name)
